@@ -64,6 +64,9 @@ deep = function(k) return 1 + obj(k) end""", "pcall(deep, 1)", 3, 1, 1, 12, 60),
                              " = k\n  n = k; if k >= lim then return 0 end; return 1 + deep(k + 1) + (b60 or 0) end\n"
                              "deep = function(k) local t1, t2 = k, k; return wide(k) end",
                              "pcall(deep, 1)", 2, 1, 55, 80, 160),
+    # every level runs in a new coroutine resumed by the previous one (nested resumes nest host calls)
+    "nested-resume": ("""deep = function(k) n = k; if k >= lim or k >= 400 then return 0 end
+  local co = coroutine.wrap(deep); return 1 + co(k + 1) end""", "pcall(deep, 1)", 2, 0, 0, 0, 0),
     "heavy-frames": ("deep = function(k) n = k; if k >= lim then return 0 end\n  local " +
                      ", ".join("a%d" % i for i in range(1, 61)) + " = k\n  return 1 + deep(k + 1) + (a60 or 0) end",
                      "pcall(deep, 1)", 2, 1, 55, 80, 160),
@@ -76,7 +79,8 @@ def rec_probe(shape, m, in_coroutine=False):
     if in_coroutine:
         src = "coroutine.wrap(function()\n" + src + "\nend)()\n"
     return {"name": "rec:" + shape + (":coroutine" if in_coroutine else ""), "src": src, "B": B, "F": F, "B0": 2,
-            "amin": amin, "amax": amax, "cmax": cmax, "fm": m, "stack": shape not in ("heavy-frames", "tail-into-wide-frame")}
+            "amin": amin, "amax": amax, "cmax": cmax, "fm": m, "stack": shape not in ("heavy-frames", "tail-into-wide-frame"),
+            "nmax": 250 if shape == "nested-resume" else 0}
 
 
 REG_TEMPLATE = """
@@ -205,6 +209,11 @@ local function va(...) local a, b = ...; return select("#", ...), a, b, (select(
 emit(va(unpack(t, 1, 90)))
 local x = {unpack(t, 10, 70)} emit(#x, x[1], x[61])
 emit(pcall(string.char, unpack(t, 65, 90)))
+""",
+    "uncaught-deep-recursion": """
+emit("before")
+local function deep(k) return 1 + deep(k + 1) end
+emit(deep(1))
 """,
     "bounded-recursion": """
 local function rec(d) if d == 0 then return 0 end; return 1 + rec(d - 1) end
@@ -352,3 +361,79 @@ def co_scenario(scen, via, K, D, m, nested=False, NL=60):
     if nested:
         src = "coroutine.wrap(function()\n" + src + "\nend)()\n"
     return {"scen": scen, "via": via, "nested": nested, "src": src, "nev": nev, "K": K, "D": D, "fm": m}
+
+
+# ---- coroutines that outlive the coroutine that created them -------------------------
+# created at nesting depth 1..3 by coroutine.create / coroutine.wrap, handed out, the creator
+# finishes / dies with an error / stays suspended, then they are resumed from the main chunk.
+# Nothing here depends on a limit: the trace must be the same under every option tuple,
+# with or without an (undone) context attached.
+
+ORPHAN_TEMPLATE = """
+local handed = {}
+local function inner_body(a)
+  local b = coroutine.yield(a + 1)
+  local c = coroutine.yield(b * 2)
+  return "end", c
+end
+local function gen_body()
+  for i = 1, 3 do coroutine.yield(i * i) end
+  return "gen done"
+end
+local function level(d)
+  if d < %(depth)d then
+    local nxt = coroutine.%(maker)s(function() return level(d + 1) end)
+    %(drive)s
+    return "passed", d
+  end
+  -- the creator at depth %(depth)d: one started coroutine, one never started, one generator
+  local started = coroutine.create(inner_body)
+  emit("in", d, coroutine.resume(started, 1))
+  handed.started = started
+  handed.fresh = coroutine.create(inner_body)
+  handed.gen = coroutine.wrap(gen_body)
+  emit("in", d, handed.gen())
+  %(fate)s
+end
+local top = coroutine.create(function() return level(1) end)
+emit("top", coroutine.resume(top))
+emit("top-status", coroutine.status(top))
+-- the creator chain is finished / dead / suspended: its children must go on working
+emit("started", coroutine.resume(handed.started, 10))
+emit("started", coroutine.resume(handed.started, 7))
+emit("started", coroutine.status(handed.started))
+emit("fresh", coroutine.resume(handed.fresh, 4))
+emit("fresh", coroutine.resume(handed.fresh, 5))
+emit("fresh", coroutine.resume(handed.fresh, 6))
+emit("gen", pcall(handed.gen))
+emit("gen", pcall(handed.gen))
+emit("gen", pcall(handed.gen))
+-- a grandchild created by an orphan after its creator is gone
+local late = coroutine.wrap(function()
+  local g = coroutine.create(function(x) local y = coroutine.yield(x + 100); return y + 1 end)
+  handed.late = g
+  return coroutine.resume(g, 1)
+end)
+emit("late", late())
+emit("late", coroutine.resume(handed.late, 41))
+"""
+
+ORPHAN_FATES = {
+    "finished": 'return "creator done", d',
+    "errored": 'error("creator failed at " .. d, 0)',
+    "suspended": 'coroutine.yield("creator parked", d); return "never"',
+}
+
+
+def orphan_programs():
+    out = {}
+    for depth in (1, 2, 3):
+        for maker in ("create", "wrap"):
+            for fate, fsrc in sorted(ORPHAN_FATES.items()):
+                if maker == "create":
+                    drive = 'emit("drive", d, coroutine.resume(nxt))'
+                else:
+                    drive = 'emit("drive", d, pcall(nxt))'
+                out["orphan-coroutine:d%d:%s:%s" % (depth, maker, fate)] = ORPHAN_TEMPLATE % {
+                    "depth": depth, "maker": maker, "drive": drive, "fate": fsrc}
+    return out
